@@ -288,7 +288,11 @@ class C06Engine(Engine):
             return
         pool_docs, pool_strs = [], []
         ndel = tape.rng(100, 250)
+        main_tape = tape
         for di in range(ndel):
+            tape = main_tape.fork('d%d' % di)      # one independent segment per delivery
+            if tape.absent:
+                continue
             t, tkind = types[tape.draw(len(types))]
             d = model.lookup(t.ns, t.name)
             if isinstance(d, Struct) and d.subtypes:
